@@ -630,6 +630,7 @@ pub fn run(_args: &[String]) -> i32 {
 		max_depth: if thorough { 8 } else { 5 },
 		wall: Duration::from_secs(if thorough { 2400 } else { 40 }),
 		max_states: if thorough { 60_000 } else { 20_000 },
+		min_depth: 3,
 	};
 	let e = explore(&m, "c03", &caps);
 	report_explored(&mut rep, "C03", "bfs", &e);
